@@ -308,10 +308,19 @@ func writeErrorResponse(w io.Writer, schema *arrow.Schema, err error, serverID, 
 // are compatible but not identical (e.g. decimal→double, int32→int64).
 // If the schemas already match, the original batch is returned as-is.
 // Returns a TypeError if the cast fails.
-func castRecordBatch(batch arrow.RecordBatch, targetSchema *arrow.Schema) (arrow.RecordBatch, error) {
+func castRecordBatch(batch arrow.RecordBatch, targetSchema *arrow.Schema) (out arrow.RecordBatch, err error) {
 	if batch.Schema().Equal(targetSchema) {
 		return batch, nil
 	}
+	// The input batch is untrusted. Touching its values (materializing a
+	// dictionary, validating offsets) can panic in arrow-go; the callers run
+	// the cast outside any recover, so report it as the TypeError it is.
+	defer func() {
+		if rv := recover(); rv != nil {
+			out = nil
+			err = &RpcError{Type: "TypeError", Message: fmt.Sprintf("Input schema mismatch: malformed input batch: %v", rv)}
+		}
+	}()
 
 	if batch.NumCols() != int64(targetSchema.NumFields()) {
 		return nil, &RpcError{
@@ -342,6 +351,21 @@ func castRecordBatch(batch arrow.RecordBatch, targetSchema *arrow.Schema) (arrow
 			cols[i] = srcCol
 			continue
 		}
+		// The column is about to be handed to an arrow compute kernel. Compute
+		// runs kernels on a goroutine of its own, so a kernel that panics on
+		// inconsistent data (a dictionary index past its dictionary, offsets
+		// outside the data buffer) cannot be recovered by anyone up the stack:
+		// the process dies. arrow-go does not check these when it loads a batch,
+		// and this batch came off the wire — check them here.
+		if verr := validateUntrustedArray(srcCol); verr != nil {
+			for j := range i {
+				cols[j].Release()
+			}
+			return nil, &RpcError{
+				Type:    "TypeError",
+				Message: fmt.Sprintf("Input schema mismatch: field %q holds malformed data: %v", targetSchema.Field(int(i)).Name, verr),
+			}
+		}
 		datum, err := compute.CastDatum(ctx, compute.NewDatum(srcCol), compute.SafeCastOptions(targetType))
 		if err != nil {
 			// Release already-cast columns
@@ -368,6 +392,25 @@ func castRecordBatch(batch arrow.RecordBatch, targetSchema *arrow.Schema) (arrow
 		c.Release()
 	}
 	return result, nil
+}
+
+// validateUntrustedArray runs the consistency checks arrow-go skips when it
+// decodes a batch and that its compute kernels rely on: dictionary indices
+// inside the dictionary, binary/string offsets monotonic and inside the data
+// buffer. Other layouts carry no value-dependent indexing.
+func validateUntrustedArray(arr arrow.Array) error {
+	switch a := arr.(type) {
+	case *array.Dictionary:
+		checked, err := array.NewValidatedDictionaryArray(a.DataType().(*arrow.DictionaryType), a.Indices(), a.Dictionary())
+		if err != nil {
+			return err
+		}
+		checked.Release()
+		return validateUntrustedArray(a.Dictionary())
+	case interface{ ValidateFull() error }:
+		return a.ValidateFull()
+	}
+	return nil
 }
 
 // WriteVoidResponse writes a complete IPC stream with logs and a zero-row empty-schema response.
